@@ -92,3 +92,132 @@ def status_consts_in(f):
             if c is not None:
                 out.append((bb, c))
     return out
+
+
+# ------------------------------------------------------------------------------------------------
+# Result / Option flow helpers
+
+PASS_THROUGH = (
+    "std::result::Result::<T, E>::map_err", "std::ops::Try::branch", "std::result::Result::<T, E>::map",
+    "std::result::Result::<T, E>::or_else", "std::result::Result::<T, E>::and_then",
+    "std::option::Option::<T>::ok_or", "std::option::Option::<T>::ok_or_else",
+)
+
+
+def result_switch(f, call_bb, max_hops=6):
+    """Follow the Result produced by the call at call_bb through map_err / `?` plumbing to the
+    switch that separates success from failure.
+    -> dict(switch=bb, ok=target, err=target, hops=[names]) or None if the result is not
+    branched on (e.g. discarded, converted with .ok())."""
+    t = f.term(call_bb)
+    cur = t["dest"]["l"] if not t["dest"]["p"] else None
+    hops = []
+    for _ in range(max_hops):
+        if cur is None:
+            return None
+        nxt = None
+        for u in f.uses().get(cur, []):
+            if u[0] == "term" and u[2]["t"] == "call" and u[3] == 0 and u[4] == "move":
+                name = call_name(u[2])
+                callee = u[2].get("callee")
+                if name in PASS_THROUGH or callee in PASS_THROUGH:
+                    hops.append(name)
+                    nxt = u[2]["dest"]["l"] if not u[2]["dest"]["p"] else None
+                    break
+                else:
+                    return {"consumed_by": name, "bb": u[1], "hops": hops}
+            if u[0] == "stmt" and u[4] == "move" and u[3]["rhs"]["rv"] == "use" and not u[3]["lhs"]["p"]:
+                nxt = u[3]["lhs"]["l"]
+                break
+            if u[0] == "stmt" and u[4] == "discr":
+                dl = u[3]["lhs"]["l"]
+                for bb2 in sorted(f.live_blocks()):
+                    sw = switch_on_discr(f, bb2)
+                    if sw and op_local(f.term(bb2)["discr"]) == dl:
+                        rv, m, otherwise, rest = sw
+                        okn = "Ok" if "Ok" in m or "Ok" in rest else "Continue"
+                        ern = "Err" if okn == "Ok" else "Break"
+                        okt = m.get(okn, otherwise if okn in rest else None)
+                        ert = m.get(ern, otherwise if ern in rest else None)
+                        return {"switch": bb2, "ok": okt, "err": ert, "hops": hops}
+        if nxt is None:
+            return None
+        cur = nxt
+    return None
+
+
+def arm_region(f, target, unwind=False):
+    """blocks that belong exclusively to the branch starting at `target`: reachable from it and
+    dominated by it"""
+    dom = f.dominators(unwind)
+    return {b for b in f.reach([target], unwind=unwind) if b in dom and target in dom[b]}
+
+
+def promoted_value(f, idx):
+    """symbolic value of promoted constant idx of f (what the promoted body's _0 refers to)"""
+    import symex
+    pf = f.promoted[idx]
+    paths = symex.enumerate_paths(pf)
+    if len(paths) != 1:
+        return ("unknown",)
+    st = symex.run_path(pf, paths[0])
+    v = st.read_key((0,))
+    if v[0] == "ref":
+        return st.read_key(v[1])
+    return v
+
+
+def const_of_origin(f, o):
+    """python constant behind an origin: direct constant, or the value of a promoted"""
+    if o[0] == "const":
+        if o[4] is not None:
+            return ("promoted", promoted_value(f, o[4]))
+        return o[1]
+    if o[0] == "ref":
+        return const_of_origin(f, o[1])
+    if o[0] == "deref":
+        return const_of_origin(f, o[1])
+    return None
+
+
+def sym_const(v):
+    """python value of a symbolic term made of constants: ints, tuples, unit-like enum variants"""
+    if v[0] == "const":
+        return v[1]
+    if v[0] == "tuple":
+        return tuple(sym_const(x) for x in v[1])
+    if v[0] == "agg":
+        if not v[3]:
+            return ("variant", v[1], v[2])
+        return (v[1], v[2], tuple(sym_const(x) for x in v[3].values()))
+    return None
+
+
+def str_match_table(f):
+    """`match s { "lit" => .. }` / chains of `s == "lit"`: every call comparing a str with a
+    string literal, followed by a bool switch.  -> [(literal, true_bb, false_bb, call_bb)]"""
+    out = []
+    for bb, t in f.calls():
+        if not call_matches(t, r"PartialEq.*for str>::eq$|<str as std::cmp::PartialEq>::eq$|core::str::traits::<impl std::cmp::PartialEq for str>::eq$"):
+            continue
+        lits = [op_const(a) for a in t["args"] if isinstance(op_const(a), str)]
+        if len(lits) != 1:
+            # maybe through a promoted / ref
+            continue
+        nt = t.get("target")
+        if nt is None:
+            continue
+        bs = bool_switch(f, nt)
+        if not bs or op_local(bs[0]) != t["dest"]["l"]:
+            continue
+        out.append((lits[0], bs[1], bs[2], bb))
+    return out
+
+
+def eval_from(f, start, init=None):
+    """symbolic states at each return reachable from `start` (normal edges, acyclic paths)"""
+    import symex
+    outs = []
+    for p in symex.enumerate_paths(f, start=start):
+        outs.append((p, symex.run_path(f, p, init)))
+    return outs
